@@ -92,6 +92,7 @@ structure Req where
   tx : Bytes
   useCandidate : Bool
   accepted : Bool      -- result of `stun_request_authenticated(packet, inner)` on the raw datagram
+  priority : Option Nat := none   -- the PRIORITY attribute, as decoded (`msg.priority`)
 deriving DecidableEq, Repr
 
 /-- what `handle_packet` does with one datagram, as an abstract input -/
@@ -127,15 +128,16 @@ def sameIp (a b : Addr) : Bool :=
 /-- `ip().is_unspecified()` -/
 def unspecified (a : Addr) : Bool := (ipOf a).all (· = 0)
 
-/-- the peer-reflexive candidate built for an unknown source -/
-def prflxCand (sock : Sock) (src : Addr) : Cand :=
+/-- the peer-reflexive candidate built for an unknown source: its priority is the PRIORITY attribute of the
+request (RFC 8445 §7.3.1.3, since the `fix:` commit), the locally computed value only if there is none -/
+def prflxCand (sock : Sock) (src : Addr) (prio : Option Nat := none) : Cand :=
   { address := src, base := src, typ := .prflx, tcp := sock.prflxTcp, passive := false,
-    priority := if sock.prflxTcp then priorityForTcp .prflx 1 .passive else priorityFor .prflx 1 }
+    priority := prio.getD (if sock.prflxTcp then priorityForTcp .prflx 1 .passive else priorityFor .prflx 1) }
 
 /-- "Check if we know this candidate" … push -/
-def learn (s : St) (sock : Sock) (src : Addr) : St :=
+def learn (s : St) (sock : Sock) (src : Addr) (prio : Option Nat := none) : St :=
   if s.remotes.any (fun c => c.address = src) then s
-  else { s with remotes := s.remotes ++ [prflxCand sock src] }
+  else { s with remotes := s.remotes ++ [prflxCand sock src prio] }
 
 /-- `publish_selected_socket(inner, pair, Some(sender))`: the inbound TCP stream wins, otherwise whatever
 `resolve_socket` finds for the pair (nothing is published if it finds none) -/
@@ -217,7 +219,7 @@ def useCandidate (s : St) (sock : Sock) (src : Addr) : St :=
 
 /-- `handle_stun_request` after the reply and the `if !authenticated { return; }` gate -/
 def handleAuthenticated (s : St) (sock : Sock) (src : Addr) (r : Req) : St :=
-  let s1 := learn s sock src
+  let s1 := learn s sock src r.priority
   let s2 := latch s1 sock src
   let s3 := tcpNominate s2 sock src
   if r.useCandidate then useCandidate s3 sock src else s3
@@ -231,13 +233,18 @@ def handleRequest (s : St) (sock : Sock) (src : Addr) (r : Req) : St :=
 def handleResponse (s : St) (tx : Bytes) : St × Option Bytes :=
   if tx ∈ s.pending then ({ s with pending := s.pending.filter (· ≠ tx), lastRx := s.now }, some tx) else (s, none)
 
+/-- `from_selected_peer`: traffic that is not part of a STUN transaction (media, Binding indications) counts
+as liveness only when it comes from the remote address of the selected pair -/
+def fromSelectedPeer (s : St) (src : Addr) : Bool :=
+  match s.selected with | some p => p.rem.address = src | none => false
+
 /-- `handle_packet` -/
 def step (s : St) (sock : Sock) (src : Addr) (i : Inp) : St × Out :=
   match i with
   | .empty => (s, {})
-  | .data => ({ s with lastRx := s.now }, { forwarded := true })
+  | .data => (if fromSelectedPeer s src then { s with lastRx := s.now } else s, { forwarded := true })
   | .undecodable => (s, {})
-  | .indication => (s, {})
+  | .indication => (if fromSelectedPeer s src then { s with lastRx := s.now } else s, {})
   | .request r => (handleRequest s sock src r, { replied := sock.canSend })
   | .response tx _ =>
     let (s', d) := handleResponse s tx
@@ -359,7 +366,7 @@ def classify (P : Prims) (ufrag pwd : Bytes) (pkt : Bytes) : Inp :=
       match decode pkt with
       | .ok d =>
         match d.cls with
-        | .request => .request ⟨d.tx, d.useCandidate, codeAuth P ufrag pwd pkt⟩
+        | .request => .request ⟨d.tx, d.useCandidate, codeAuth P ufrag pwd pkt, d.priority⟩
         | .success => .response d.tx false
         | .error => .response d.tx true
         | .indication => .indication
